@@ -149,7 +149,11 @@ func (n *sfNode) hasKind(kind string) bool {
 	return false
 }
 
-func sfStrLit(s string) sfLit { return sfLit{token: "S" + hxs(s), text: `"` + s + `"`} }
+// sfStrLit: the literal is spelled with the escapes of the grammar (ESC: \\ \" \f \n \r \t); every other
+// character verbatim (the pools hold only strings a literal can spell: no other control characters)
+func sfStrLit(s string) sfLit { return sfLit{token: "S" + hxs(s), text: `"` + c19ZqlEscaper.Replace(s) + `"`} }
+
+var c19ZqlEscaper = strings.NewReplacer(`\`, `\\`, `"`, `\"`, "\f", `\f`, "\n", `\n`, "\r", `\r`, "\t", `\t`)
 func sfIntLit(v int64) sfLit {
 	return sfLit{token: "I" + strconv.FormatInt(v, 10), text: strconv.FormatInt(v, 10)}
 }
@@ -436,22 +440,59 @@ func (it *c19SliceIter) Current() *qRow {
 	return nil
 }
 
+// c19Objects: two object stores over the current collection.  `store` is fed by the harness's own iterator in the
+// order the case prescribes; `mstore` is fed by the library's iterator helper, objectz.IterateMap, over a
+// map[string]*qRow that lives as long as the store and is emptied and re-populated when the collection changes
+// (Go map order: any order, see objectz_order_irrelevant).  reset replaces both by new ObjectStore instances
+// (case line S); without it the same two instances answer every query of the run.
 type c19Objects struct {
-	store *objectz.ObjectStore[*qRow]
-	order []*qRow
+	store  *objectz.ObjectStore[*qRow]
+	mstore *objectz.ObjectStore[*qRow]
+	m      map[string]*qRow
+	loaded *qDataset
+	order  []*qRow
 }
 
 func newC19Objects() *c19Objects {
 	o := &c19Objects{}
+	o.reset()
+	return o
+}
+
+func (o *c19Objects) reset() {
 	o.store = objectz.NewObjectStore[*qRow](func() objectz.ObjectIterator[*qRow] {
 		return &c19SliceIter{rows: o.order}
 	})
-	o.store.AddStringSymbol("id", func(r *qRow) *string { return &r.id })
+	m := map[string]*qRow{}
+	o.m, o.loaded = m, nil
+	o.mstore = objectz.NewObjectStore[*qRow](func() objectz.ObjectIterator[*qRow] {
+		return objectz.IterateMap(m)
+	})
+	c19AddSymbols(o.store)
+	c19AddSymbols(o.mstore)
+}
+
+// sync makes the map hold exactly the objects of d: emptied, then populated (the map object stays the same)
+func (o *c19Objects) sync(d *qDataset) {
+	if o.loaded == d {
+		return
+	}
+	for k := range o.m {
+		delete(o.m, k)
+	}
+	for i := range d.rows {
+		o.m[d.rows[i].id] = &d.rows[i]
+	}
+	o.loaded = d
+}
+
+func c19AddSymbols(store *objectz.ObjectStore[*qRow]) {
+	store.AddStringSymbol("id", func(r *qRow) *string { return &r.id })
 	for ci, col := range qCols {
 		ci := ci
 		switch col.typ {
 		case 's':
-			o.store.AddStringSymbol(col.name, func(r *qRow) *string {
+			store.AddStringSymbol(col.name, func(r *qRow) *string {
 				if c := r.cells[ci]; c.kind == 'S' {
 					v := c.s
 					return &v
@@ -459,7 +500,7 @@ func newC19Objects() *c19Objects {
 				return nil
 			})
 		case 'i':
-			o.store.AddInt64Symbol(col.name, func(r *qRow) *int64 {
+			store.AddInt64Symbol(col.name, func(r *qRow) *int64 {
 				if c := r.cells[ci]; c.kind == 'I' {
 					v := c.i
 					return &v
@@ -467,7 +508,7 @@ func newC19Objects() *c19Objects {
 				return nil
 			})
 		case 'f':
-			o.store.AddFloat64Symbol(col.name, func(r *qRow) *float64 {
+			store.AddFloat64Symbol(col.name, func(r *qRow) *float64 {
 				if c := r.cells[ci]; c.kind == 'F' {
 					v := math.Float64frombits(c.f)
 					return &v
@@ -475,7 +516,7 @@ func newC19Objects() *c19Objects {
 				return nil
 			})
 		case 'b':
-			o.store.AddBoolSymbol(col.name, func(r *qRow) *bool {
+			store.AddBoolSymbol(col.name, func(r *qRow) *bool {
 				if c := r.cells[ci]; c.kind == 'B' {
 					v := c.b
 					return &v
@@ -483,7 +524,7 @@ func newC19Objects() *c19Objects {
 				return nil
 			})
 		case 't':
-			o.store.AddDatetimeSymbol(col.name, func(r *qRow) *time.Time {
+			store.AddDatetimeSymbol(col.name, func(r *qRow) *time.Time {
 				if c := r.cells[ci]; c.kind == 'T' {
 					v := time.Unix(c.sec, c.nsec).UTC()
 					return &v
@@ -492,25 +533,36 @@ func newC19Objects() *c19Objects {
 			})
 		}
 	}
-	return o
 }
 
-func (o *c19Objects) query(d *qDataset, order []int, text string) string {
+// query answers with `objectz=<res> ... objectzmap=<res>` parts: the store fed in the prescribed order and the one
+// fed through objectz.IterateMap
+func (o *c19Objects) query(d *qDataset, order []int, text string) (string, string) {
 	o.order = o.order[:0]
 	for _, i := range order {
 		o.order = append(o.order, &d.rows[i])
 	}
-	return qGuard(func() string {
-		objs, count, err := o.store.QueryEntities(text)
-		if err != nil {
-			return "ERR"
-		}
-		ids := make([]string, len(objs))
-		for i, obj := range objs {
-			ids[i] = obj.id
-		}
-		return fmt.Sprintf("%d:%s", count, qIdsStr(ids))
-	})
+	o.sync(d)
+	run := func(store *objectz.ObjectStore[*qRow]) string {
+		return qGuard(func() string {
+			objs, count, err := store.QueryEntities(text)
+			if err != nil {
+				return "ERR"
+			}
+			ids := make([]string, len(objs))
+			for i, obj := range objs {
+				ids[i] = obj.id
+			}
+			return fmt.Sprintf("%d:%s", count, qIdsStr(ids))
+		})
+	}
+	return run(o.store), run(o.mstore)
+}
+
+// implLine: one query on the two object stores and on the bolt store
+func (o *c19Objects) implLine(d *qDataset, order []int, text string, db *bbolt.DB, store boltz.ConfigurableStore) string {
+	oz, om := o.query(d, order, text)
+	return fmt.Sprintf("objectz=%s boltz=%s objectzmap=%s", oz, c19Bolt(db, store, text), om)
 }
 
 func c19Bolt(db *bbolt.DB, store boltz.ConfigurableStore, text string) string {
@@ -534,16 +586,18 @@ type c19Query struct {
 	filter *sfNode
 	q      qQuery // sort / skip / limit (its filter index is unused)
 	order  []int
+	style  int // != 0: the text is respelled outside its literals (c19Respell, case line QV <style> ...)
 }
 
 func (c *c19Query) text() string {
 	q := c.q
 	q.filter = 4 // "" = predicate printed separately
 	rest := q.text()
-	if rest == "true" {
-		return c.filter.text()
+	text := c.filter.text()
+	if rest != "true" {
+		text += " " + rest
 	}
-	return c.filter.text() + " " + rest
+	return c19Respell(text, c.style)
 }
 
 func (c *c19Query) caseLine() string {
@@ -558,7 +612,11 @@ func (c *c19Query) caseLine() string {
 		}
 		ord = strings.Join(parts, ",")
 	}
-	return "Q " + ord + " " + c.filter.term() + " " + strings.Join(f[2:], " ")
+	head := "Q "
+	if c.style != 0 {
+		head = fmt.Sprintf("QV %d ", c.style)
+	}
+	return head + ord + " " + c.filter.term() + " " + strings.Join(f[2:], " ")
 }
 
 func qShuffled(r *rng, n int) []int {
@@ -589,7 +647,7 @@ func runC19(o *opts) error {
 		return c19Replay(qb, objs, rp, cases, impl)
 	}
 
-	stats := map[string]map[string]int{"rows": {}, "sort_keys": {}, "skip": {}, "limit": {}, "filter_root": {}, "filter_has": {}, "collections": {}}
+	stats := map[string]map[string]int{"rows": {}, "sort_keys": {}, "skip": {}, "limit": {}, "filter_root": {}, "filter_has": {}, "collections": {}, "sessions": {}}
 	bump := func(group, key string) { stats[group][key]++ }
 	r := qRng(o.seed, 0xC19)
 	nData, nFilters := 5, 12
@@ -643,7 +701,7 @@ func runC19(o *opts) error {
 			cq := &c19Query{filter: f, q: qQuery{sort: fs, skip: pg.skip, limit: pg.limit, none: pg.none}, order: qShuffled(shuffle, n)}
 			text := cq.text()
 			cases.line("%s", cq.caseLine())
-			impl.line("objectz=%s boltz=%s", objs.query(d, cq.order, text), c19Bolt(qb.db, store, text))
+			impl.line("%s", objs.implLine(d, cq.order, text, qb.db, store))
 			c19Bump(bump, f, fs, pg, int64(n))
 		}
 		if extreme {
@@ -718,10 +776,15 @@ func runC19(o *opts) error {
 		cq := &c19Query{filter: f, q: qQuery{sort: fs, skip: pg.skip, limit: pg.limit, none: pg.none}, order: qShuffled(rl, len(ld.rows))}
 		text := cq.text()
 		cases.line("%s", cq.caseLine())
-		impl.line("objectz=%s boltz=%s", objs.query(ld, cq.order, text), c19Bolt(qb.db, lstore, text))
+		impl.line("%s", objs.implLine(ld, cq.order, text, qb.db, lstore))
 		c19Bump(bump, f, fs, pg, int64(len(ld.rows)))
 	})
 	if err != nil {
+		return err
+	}
+	// (S) sessions on fresh ObjectStore instances: near-identical query texts in sequence, collections emptied and
+	// re-populated under one store, the library's map iterator over empty / one-element / larger maps (c19seq.go)
+	if err := c19SeqEmit(o, qb, objs, cases, impl, bump); err != nil {
 		return err
 	}
 	writeJSON(o.out, "stats.json", stats)
@@ -762,9 +825,20 @@ func c19Replay(qb *qBolt, objs *c19Objects, path string, cases, impl *lineWriter
 			}
 			cases.line("%s", line)
 			impl.line("D")
-		case "Q":
+		case "S":
+			objs.reset()
+			cases.line("S")
+			impl.line("S")
+		case "Q", "QV":
 			if d == nil {
 				return fmt.Errorf("query before dataset")
+			}
+			style := 0
+			if f[0] == "QV" {
+				if style, err = strconv.Atoi(f[1]); err != nil {
+					return err
+				}
+				f = append([]string{"Q"}, f[2:]...)
 			}
 			var order []int
 			if f[1] != "-" {
@@ -785,11 +859,11 @@ func c19Replay(qb *qBolt, objs *c19Objects, path string, cases, impl *lineWriter
 			if err != nil {
 				return err
 			}
-			cq := &c19Query{filter: filter, q: *q2, order: order}
+			cq := &c19Query{filter: filter, q: *q2, order: order, style: style}
 			text := cq.text()
 			cases.line("%s", line)
-			impl.line("objectz=%s boltz=%s", objs.query(d, order, text), c19Bolt(qb.db, store, text))
-			fmt.Fprintf(os.Stderr, "replay query text: %s\n", text)
+			impl.line("%s", objs.implLine(d, order, text, qb.db, store))
+			fmt.Fprintf(os.Stderr, "replay query text: %s\n", c19Show.Replace(text))
 		}
 	}
 	return nil
